@@ -2,6 +2,7 @@ import Mathlib.Tactic.Ring
 import Mathlib.Tactic.Abel
 import Mathlib.Data.Fintype.Card
 import Mathlib.Logic.Equiv.Defs
+import CCV.Lemmas.Pivot
 /-
   C03 — a party's view reveals nothing beyond its own inputs and outputs.
 
@@ -140,6 +141,75 @@ theorem two_of_two_hides {X : Type} (v : X → R) :
   exact ⟨fun r => r + (v x' - v x), shift_bijective _, fun r => by ring⟩
 
 end ring
+
+/- ------------------------------------------------------------------------------------------------
+   Part (ii): the mask discipline is sound for EVERY message system, over every additive group.
+   ------------------------------------------------------------------------------------------------ -/
+section discipline
+open CCV.Pivot
+variable {R X : Type} [AddCommGroup R]
+
+/-- the tape with the pivot coordinates blanked: everything about the tape that is not a pivot
+    (in particular every mask the observer knows) -/
+def offPivots (msgs : List (Msg X R)) (ρ : Nat → R) : Nat → R :=
+  fun v => if ∃ m ∈ msgs, v = m.piv then 0 else ρ v
+
+theorem offPivots_congr (msgs : List (Msg X R)) (ρ ρ' : Nat → R)
+    (h : ∀ v, (∀ m ∈ msgs, v ≠ m.piv) → ρ' v = ρ v) : offPivots msgs ρ' = offPivots msgs ρ := by
+  funext v
+  unfold offPivots
+  by_cases hv : ∃ m ∈ msgs, v = m.piv
+  · simp [hv]
+  · simp only [hv, if_false]
+    exact h v (fun m hm e => hv ⟨m, hm, e⟩)
+
+/-- **Soundness of the mask discipline (non-recipient observer).**  If the messages delivered to a
+    party, in some order, each carry a fresh pivot mask with coefficient ±1 that no earlier message
+    depends on (older masks may enter in any, even non-linear, way), then the party's whole view —
+    all messages together with every non-pivot coordinate of the tape — is identically distributed
+    for any two secret vectors: it learns nothing. -/
+theorem pivot_discipline_hides (msgs : List (Msg X R)) (h : Disc msgs) :
+    Hides (fun (x : X) (ρ : Nat → R) => (msgs.map (fun m => m.f x ρ), offPivots msgs ρ))
+      (fun _ => ()) := by
+  intro x x' _
+  obtain ⟨σ, τ, S⟩ := exists_sim msgs h x x'
+  refine ⟨σ, ⟨Function.LeftInverse.injective S.left, Function.RightInverse.surjective S.right⟩, ?_⟩
+  intro ρ
+  refine Prod.ext ?_ ?_
+  · exact List.map_congr_left (fun m hm => S.align ρ m hm)
+  · exact (offPivots_congr msgs ρ (σ ρ) (fun v hv => S.fixσ ρ v hv)).symm
+
+/-- **… and for an output recipient**: further messages `rev` (the shares sent at reveal) that are
+    determined by the party's output and the rest of its view add nothing. -/
+theorem pivot_discipline_hides_recipient {O V : Type} (msgs : List (Msg X R)) (h : Disc msgs)
+    (out : X → O) (rev : X → (Nat → R) → V)
+    (F : O → List R → (Nat → R) → V)
+    (hrev : ∀ x ρ, rev x ρ = F (out x) (msgs.map (fun m => m.f x ρ)) (offPivots msgs ρ)) :
+    Hides (fun (x : X) (ρ : Nat → R) => (msgs.map (fun m => m.f x ρ), offPivots msgs ρ, rev x ρ)) out := by
+  intro x x' hout
+  obtain ⟨σ, τ, S⟩ := exists_sim msgs h x x'
+  refine ⟨σ, ⟨Function.LeftInverse.injective S.left, Function.RightInverse.surjective S.right⟩, ?_⟩
+  intro ρ
+  have e1 : msgs.map (fun m => m.f x ρ) = msgs.map (fun m => m.f x' (σ ρ)) :=
+    List.map_congr_left (fun m hm => S.align ρ m hm)
+  have e2 : offPivots msgs ρ = offPivots msgs (σ ρ) :=
+    (offPivots_congr msgs ρ (σ ρ) (fun v hv => S.fixσ ρ v hv)).symm
+  simp only [hrev, hout, e1, e2]
+
+/-- non-vacuity: two messages over ℤ; the second uses the first mask non-linearly
+    (`z₂ = x·ρ₀² + ρ₁`), the first is `x + ρ₀`; listed last first. -/
+example : Disc (X := Int) (R := Int)
+    [⟨fun x ρ => x * ρ 0 * ρ 0 + ρ 1, 1, false⟩, ⟨fun x ρ => x + ρ 0, 0, false⟩] := by
+  refine Disc.cons _ _ ?_ ?_ (Disc.cons _ _ ?_ ?_ Disc.nil)
+  · intro x ρ a; simp [upd, sg]
+  · intro m' hm'
+    simp only [List.mem_singleton] at hm'
+    subst hm'
+    exact ⟨fun x ρ a => by simp [upd], by decide⟩
+  · intro x ρ a; simp [upd, sg]
+  · intro m' hm'; simp at hm'
+
+end discipline
 
 /-- non-vacuity: over ℤ/2 (bits) the input-sharing view of x = 0 and x = 1 has, for each value,
     exactly one tape producing it -/
